@@ -25,7 +25,7 @@ REQUIRED = {'node-dense': 50, 'get': 50, 'full': 50, 'sum': 50, 'mean': 50,
     'accuracy_on_data': 30, 'interface': 50, 'get_and_grad': 30,
     'props': 50, 'erank': 50, 'outer': 10, 'int-bitexact': 20,
     'large-exact': 200, 'dtype-upcast': 100, 'shared-objects': 200,
-    'accuracy-gap': 30, 'many-sum': 60,
+    'accuracy-gap': 30, 'many-sum': 60, 'stab-scalar-product': 100,
     'get_many': 50}
 ASSUMPTIONS = ['numpy longdouble (64-bit mantissa) contraction is the dense '
     'reference; tolerance 10*(sum ranks + d)*2^-52*absbound',
@@ -55,6 +55,8 @@ def gen_cases(seed, tier):
         out.append({'kind': 'gap', 'seed': int(rng.integers(1 << 62))})
     for j in range(40 if tier == 'quick' else 1000):
         out.append({'kind': 'manysum', 'seed': int(rng.integers(1 << 62))})
+    for j in range(40 if tier == 'quick' else 1000):
+        out.append({'kind': 'stabprod', 'seed': int(rng.integers(1 << 62))})
     for j in range(n):
         out.append({'seed': int(rng.integers(1 << 62)),
             'depth': int(rng.integers(1, 5 if tier == 'quick' else 8)),
@@ -403,10 +405,111 @@ def run_manysum(case, ctx):
             f'of {m} items (trunc_freq {tf or "default"}): ||result - dense '
             f'sum||_F = {err:.3e} (||sum|| = {fro(S):.3e}, bound '
             f'{2 * bound + floor:.3e})')
+    # a rank cap is a bound on the RESULT: summands that cancel (A, N_1..N_k,
+    # -N_1..-N_k, B) have partial sums of high rank and a sum of low rank
+    k = int(rng.integers(15, 19))
+    N_ = [gen.cores(rng, n, [1] * (d + 1), 'normal') for _ in range(k)]
+    Nm = []
+    for Q in N_:
+        Qm = [G.copy() for G in Q]
+        Qm[int(rng.integers(d))] *= -1.
+        Nm.append(Qm)
+    A_, B_ = (gen.cores(rng, n, [1] * (d + 1), 'normal') for _ in range(2))
+    cap = int(rng.integers(2, 4))
+    lst = [A_] + N_ + Nm + [B_]
+    Zc = teneva.add_many(lst, 1e-10, cap)
+    if ctx.check('many-sum', ref.wellformed(Zc, n) is None,
+            'add_many with a cap: malformed result'):
+        Sc = ref.dense_ld(A_) + ref.dense_ld(B_)
+        big = max(float(np.sqrt(np.sum(ref.dense_ld(Q) ** 2))) for Q in lst)
+        err = float(np.sqrt(np.sum((ref.dense_ld(Zc) - Sc) ** 2)))
+        ctx.check('many-sum', err <= 1e-6 * big * len(lst), lambda: 'add_many '
+            f'of {len(lst)} rank-1 summands that cancel to a rank-2 tensor, '
+            f'cap r = {cap}: ||result - dense sum||_F = {err:.3e} (largest '
+            f'summand {big:.3e})')
+        ctx.check('many-sum', max(ref.ranks_of(Zc)) <= cap, 'add_many: rank '
+            f'cap {cap} exceeded: {ref.ranks_of(Zc)}')
     ctx.nontrivial(['manysum', n, m, tf])
 
 
+def run_stabprod(case, ctx):
+    """Scalar product and norm with use_stab=True: the pair (v, p) must
+    denote the dense value v 2^p - on operands whose entries are ordinary but
+    whose cores are badly balanced (half of them 2^-150, half 2^+150), with
+    sparse block structure (direct sums of rank-1 tensors with disjoint
+    supports: exact zeros in every partial contraction) and opposite signs
+    (every entry of the partial contractions <= 0)."""
+    import teneva
+    rng = np.random.default_rng(case['seed'])
+    d = 2 * int(rng.integers(4, 7))
+    n = [int(rng.integers(2, 4)) for _ in range(d)]
+    q = int(rng.integers(2, 4))                    # number of summands
+    parts = []
+    for t in range(q):
+        cores = []
+        for k in range(d):
+            v = rng.uniform(0.5, 1.5, size=n[k])
+            v[np.arange(n[k]) % q != t % min(q, n[k])] = 0.   # disjoint supports
+            if not np.any(v):
+                v[t % n[k]] = 1.
+            cores.append(v)
+        parts.append(cores)
+    def dsum(sign):
+        Y = []
+        for k in range(d):
+            G = np.zeros((1 if k == 0 else q, n[k], 1 if k == d - 1 else q))
+            for t in range(q):
+                G[0 if k == 0 else t, :, 0 if k == d - 1 else t] = parts[t][k]
+            Y.append(G)
+        Y[int(rng.integers(d))] *= sign
+        return Y
+    Y1, Y2 = dsum(1.), dsum(-1.)
+    for t in range(q):
+        Y2[0][0, :, t if d > 1 else 0] *= float(rng.uniform(0.5, 2.))
+    ex = [-150] * (d // 2) + [150] * (d // 2)
+    if rng.random() < 0.5:
+        ex = ex[::-1]
+    Y1 = [np.ldexp(G, e) for G, e in zip(Y1, ex)]
+    Y2 = [np.ldexp(G, e) for G, e in zip(Y2, ex)]
+    # the power-of-two scales cancel exactly: dense values from the unscaled
+    # cores, and 2^(2 sum ex) = 1
+    U1 = [np.ldexp(G, -e) for G, e in zip(Y1, ex)]
+    U2 = [np.ldexp(G, -e) for G, e in zip(Y2, ex)]
+    A1, A2 = ref.dense_ld(U1), ref.dense_ld(U2)
+    want = np.sum(A1 * A2)
+    tol = C * (ref.nterms(U1) + ref.nterms(U2)) * EPS * np.sum(
+        np.abs(A1) * np.abs(A2))
+    for a, b, w, what in ((Y1, Y2, want, '<Y1, Y2>'), (Y2, Y1, want,
+            '<Y2, Y1>'), (Y1, Y1, np.sum(A1 * A1), '<Y1, Y1>')):
+        try:
+            res = teneva.mul_scalar(a, b, use_stab=True)
+        except Exception as ex_:
+            ctx.viol('stab-scalar-product', f'mul_scalar(use_stab=True) '
+                f'{what} raised {type(ex_).__name__}: {ex_}', d=d)
+            continue
+        ok = isinstance(res, tuple) and len(res) == 2
+        if ctx.check('stab-scalar-product', ok, f'mul_scalar(use_stab=True) '
+                f'returned {type(res).__name__}'):
+            v, p = res
+            got = LD(v) * np.ldexp(LD(1), int(p)) if np.isfinite(v) else LD(v)
+            ctx.close('stab-scalar-product', got, w, tol, f'mul_scalar('
+                f'use_stab=True) {what}: v 2^p differs from the dense scalar '
+                f'product (d = {d}, cores scaled by 2^-150 / 2^+150, block-'
+                'diagonal, opposite signs)', v=v, p=p)
+    res = teneva.norm(Y1, use_stab=True)
+    if ctx.check('stab-scalar-product', isinstance(res, tuple) and len(res) == 2,
+            'norm(use_stab=True) must return (v, p)'):
+        v, p = res
+        got = LD(v) * np.exp2(LD(p))
+        ctx.close('stab-scalar-product', got, np.sqrt(np.sum(A1 * A1)),
+            tol / np.sqrt(np.sum(A1 * A1)), 'norm(use_stab=True): v 2^p '
+            'differs from the dense norm')
+    ctx.nontrivial(['stabprod', d, q, ex[0]])
+
+
 def run_case(case, ctx):
+    if case.get('kind') == 'stabprod':
+        return run_stabprod(case, ctx)
     # values below 1e-300 are subnormal or nearly so: their relative accuracy
     # is gone by construction and a tolerance c eps |x| underflows to 0
     ctx.abs_floor = 1e-300
